@@ -9,6 +9,25 @@ TB = ("Trusted: Lean 4.33 kernel; axioms propext/Classical.choice/Quot.sound onl
       "(generators, canonicalisation, oracle). The tie model<->code is regenerated facts + behavioural correspondence (a search).")
 
 CHECKS = {
+ "C03": dict(
+  text="Lean theorems about a record-granularity model of the commit/sync/recovery protocol (micro-steps in the code's order: value-log append, tx-log "
+       "SetOffset+Append, sync() = vlog sync, tx-log sync, commit-log SetOffset/Append/Sync, acknowledgement; external commit allowance; buffer-full "
+       "auto-syncs of any single log at any time; any number of crash+restart cycles; logs with durable/volatile/stale cells). For EVERY reachable state and "
+       "EVERY crash image (per log any prefix of the un-fsynced cells, torn next cell, stale tail): recover_total (OpenWith never fails), recover_acked_prefix "
+       "(acked <= recovered committed, acked records identical), recover_extends(+_prefix) (nothing invented), recover_chain (dense ids, PrevAlh chain), "
+       "recover_idempotent (crash during/after recovery), acked_values_durable_partial (one epoch); witnesses swapped_order_loses_acked, "
+       "early_ack_loses_acked (necessity of the write ordering) and autosync_recovers_tx_without_values (finding K7 as a theorem about the code's protocol). "
+       "Tie: the real store runs on a crash-simulating Appendable (crashfs, differentially validated against the real multiapp every run); the recorded "
+       "storage-op trace is replayed through the model and the model must predict the real store.Open's (committedTxID, precommittedTxID) / error class on "
+       "every enumerated crash image. Independent oracle on the reopened real store: Open succeeds, acked txs present and byte-identical, chain + BlRoot "
+       "recomputed, nothing invented, DualProof(acked -> recovered) verifies, Get vs log after WaitForIndexingUpto, fresh commit; plus second crashes during "
+       "recovery and after recovery+commit, and deterministic attack templates.",
+  note=TB + " Modelled rather than verified: ideal (injective) Alh, one cell per record (byte-level tearing only as 'torn cell'), the two volatile levels "
+       "(buffered / written) merged, committers serialised in the model, hash tree (aht) and index (tbtree) recovery are NOT in the Lean model (covered by the "
+       "crash-image enumeration + oracle only: that is where 3 of the 4 findings are), preallocated files and compressed value logs not covered, "
+       "fsync assumed to reach the platter. acked_values is proved for one epoch only (false across restarts: K7).",
+  technique="Lean 4 proof (invariant over micro-step sequences and crash images) + crash-image enumeration of the real store on an in-memory Appendable + trace correspondence",
+  design="7/C03"),
  "C10": dict(
   text="Lean theorems about the specification MVMap (sorted association list key -> versions newest first, the exact functions the driver runs): "
        "insert/get laws, strict key order and strictly decreasing version timestamps for every reachable map, History = window of the full version list in "
